@@ -66,6 +66,7 @@ def _defs():
     if not _SRC:
         _SRC["ser"] = pysym.load(Point._serialize_to_list)
         _SRC["des"] = pysym.load(Point._deserialize_from_list)
+        _SRC["funcs"], _SRC["methods"] = pysym.load_helpers(Point, exclude=("_serialize_to_list", "_deserialize_from_list"))
         _SRC["consts"] = {
             k: getattr(Point, k, None)
             for k in ("_none_str", "_default_tag_key_prefix", "_default_field_key_prefix", "_compact_tag_key_prefix", "_compact_field_key_prefix")
@@ -99,7 +100,7 @@ def h_codec(params):
     if not lpe.is_symbolic():
         return _codec_concrete(params)
     d = _defs()
-    it = Interp(d["consts"])
+    it = Interp(d["consts"], d["funcs"], d["methods"])
     m = sym_str("m")
     tags = []
     for i in range(nt):
@@ -386,7 +387,7 @@ def preflight(tier):
     def one():
         for p in pts:
             for compact in (False, True):
-                it = Interp(d["consts"])
+                it = Interp(d["consts"], d["funcs"], d["methods"])
                 # concrete values: strings as Python str, numbers as Python numbers, time as a token
                 po = PyObj(_time=Time("T"), _measurement=p.measurement, _tags=AssocDict(list(p.tags.items())), _fields=AssocDict(list(p.fields.items())))
                 row = pysym.call(d["ser"], it, self=po, compact_key_prefixes=compact)
@@ -394,7 +395,7 @@ def preflight(tier):
                 got = tuple(real[0] if isinstance(c, Time) else c for c in row)
                 assert got == tuple(real), (p, got, real)
                 q = PyObj()
-                it2 = Interp(d["consts"])
+                it2 = Interp(d["consts"], d["funcs"], d["methods"])
                 pysym.call(d["des"], it2, self=q, row=(Time("T", aware=False, iso=True),) + tuple(real[1:]))
                 rq = Point()._deserialize_from_list(real)
                 assert q._measurement == rq.measurement and dict(q._tags.pairs) == rq.tags, (p, q.__dict__, rq)
